@@ -318,6 +318,11 @@ long long c_delineate_boundary(long long nrows, long long ncols,
                 break;
         }
 
+        /* Stop if no other boundary cell was found
+         * (e.g. catchment with a single cell) */
+        if(knext < 0)
+            break;
+
         /* Iterate if we have a neighbour */
         buffer[knext] = -1;
         idxcell = next;
